@@ -71,6 +71,7 @@ class Sched:
         self.main_sem = _th.Semaphore(0)
         self.steps = 0
         self.max_steps = max_steps
+        self.spinning = False
         self.trace = []  # (thread name, label) at every switch, for counterexample display
         self.nchoices = 0
 
@@ -129,6 +130,14 @@ class Sched:
             if me.spins > 2 and len(cands) > 1 and me in cands:
                 cands.remove(me)
                 forced = True
+            elif me.spins > 40 and cands == [me]:
+                # the only runnable thread polls again and again without anything changing: a busy loop at
+                # (what should be) quiescence.  Park it and report the state to the driver as `spinning`.
+                self.spinning = True
+                self.cur = None
+                self.main_sem.release()
+                me.sem.acquire()
+                raise Kill()
         if not cands:
             nxt = None
         else:
